@@ -147,7 +147,65 @@ func genCors(r *Rng) Sx {
 		}
 		reqs = append(reqs, q.Sx())
 	}
-	return L(cfg, t.Sx(), reqs)
+	// the route table may change between two requests of the sequence (dynamic routes): what the filter computes from
+	// the container must follow
+	mut := Ls{}
+	if nreq >= 2 && len(routes) > 0 && r.Pct(25) {
+		gr := routes[r.Intn(len(routes))]
+		root := ""
+		for _, sv := range t.Services {
+			for _, rs := range sv.Routes {
+				if rs.ID == gr.spec.ID {
+					root = sv.Root
+				}
+			}
+		}
+		cut := 1 + r.Intn(nreq-1)
+		mut = L(cut, A(root), A(gr.spec.Method), A(concatPathGo(root, gr.spec.Rel)))
+		// aim the sequence at that route: the same URL before and after, asking for its method
+		segs := []string{}
+		for _, tk := range gr.toks {
+			if tk.kind == 0 {
+				segs = append(segs, tk.text)
+			} else {
+				segs = append(segs, "x")
+			}
+		}
+		for k := range reqs {
+			q := sxReq(reqs[k])
+			q.Path = "/" + strings.Join(segs, "/")
+			if r.Pct(75) {
+				q.Method = "OPTIONS"
+				q.Set("Access-Control-Request-Method", gr.spec.Method)
+			}
+			reqs[k] = q.Sx()
+		}
+	}
+	return L(cfg, t.Sx(), reqs, mut)
+}
+
+// the table without the routes of (method, full path) in the service of that root
+func withoutRoute(t TableSpec, root, method, full string) TableSpec {
+	out := TableSpec{Router: t.Router}
+	for _, sv := range t.Services {
+		nsv := ServiceSpec{Root: sv.Root}
+		for _, rs := range sv.Routes {
+			if sv.Root == root && rs.Method == method && concatPathGo(sv.Root, rs.Rel) == full {
+				continue
+			}
+			nsv.Routes = append(nsv.Routes, rs)
+		}
+		out.Services = append(out.Services, nsv)
+	}
+	return out
+}
+
+func removeRouteOn(c *restful.Container, root, method, full string) {
+	for _, ws := range c.RegisteredWebServices() {
+		if ws.RootPath() == root {
+			ws.RemoveRoute(full, method)
+		}
+	}
 }
 
 func corsFromSx(cfg Sx) restful.CrossOriginResourceSharing {
@@ -172,6 +230,13 @@ func corsFromSx(cfg Sx) restful.CrossOriginResourceSharing {
 func runCors(raw Sx) (Sx, Sx) {
 	cfgSx, tSx, reqsSx := sxNth(raw, 0), sxNth(raw, 1), sxList(sxNth(raw, 2))
 	t := tableFromSx(tSx)
+	var mut Sx = Ls{}
+	cut := -1
+	if len(sxList(raw)) > 3 && len(sxList(sxNth(raw, 3))) == 4 {
+		mut = sxNth(raw, 3)
+		cut = sxInt(sxNth(mut, 0))
+	}
+	tNow := t
 	pr1, pr2 := &probe{}, &probe{}
 	c1, kept, _ := buildContainer(t, pr1)
 	c2, _, _ := buildContainer(t, pr2)
@@ -187,7 +252,13 @@ func runCors(raw Sx) (Sx, Sx) {
 	}
 	all := func(string) bool { return true }
 	obs := Ls{}
-	for _, rs := range reqsSx {
+	for k, rs := range reqsSx {
+		if k == cut {
+			root, method, full := sxStr(sxNth(mut, 1)), sxStr(sxNth(mut, 2)), sxStr(sxNth(mut, 3))
+			removeRouteOn(c1, root, method, full)
+			removeRouteOn(c2, root, method, full)
+			tNow = withoutRoute(t, root, method, full)
+		}
 		q := sxReq(rs)
 		*pr1, *pr2 = probe{}, probe{}
 		rec1, rec2 := httptest.NewRecorder(), httptest.NewRecorder()
@@ -208,7 +279,7 @@ func runCors(raw Sx) (Sx, Sx) {
 		// the same request alone, on a fresh container with a fresh filter value (C19: the answer must not depend on
 		// what the filter served before)
 		pr3 := &probe{}
-		c3, _, _ := buildContainer(t, pr3)
+		c3, _, _ := buildContainer(tNow, pr3)
 		cors3 := corsFromSx(cfgSx)
 		cors3.Container = c3
 		c3.Filter(cors3.Filter)
@@ -223,7 +294,7 @@ func runCors(raw Sx) (Sx, Sx) {
 		}
 		tabulateRouting(o, kept, q.Path)
 	}
-	return L(o.Sx(), cfgSx, kept.Sx(), Ls(reqsSx)), obs
+	return L(o.Sx(), cfgSx, kept.Sx(), Ls(reqsSx), mut), obs
 }
 
 func init() { domains["cors"] = domain{gen: genCors, run: runCors} }
